@@ -1,5 +1,43 @@
-(* C08 -- placeholder until Proofs/C08.v lands. *)
-From GV Require Import Base.Prelude Model.C08.
-Theorem C08_roundtrip_small : roundtrip_upto 64 = true.
-Proof. vm_compute. reflexivity. Qed.
-Print Assumptions C08_roundtrip_small.
+(* C08 -- property theorems only. *)
+From GV Require Import Base.Prelude Model.C08 Proofs.C08.
+
+(* every sample of every frame is counted in exactly one voxel: the voxel sum is frames x atoms *)
+Theorem C08_volume_sum : forall D nx ny nz samples, 0 < D -> 0 < nx -> 0 < ny -> 0 < nz ->
+  (forall p, In p samples -> let '(x,y,z) := p in 0 <= x < D /\ 0 <= y < D /\ 0 <= z < D) ->
+  zsum (volume D (nx,ny,nz) samples) = Z.of_nat (length samples).
+Proof. exact volume_sum. Qed.
+Print Assumptions C08_volume_sum.
+
+(* ... namely the voxel floor(fractional coordinate x grid size) *)
+Theorem C08_volume_entry : forall D nx ny nz samples i j k, 0 <= i < nx -> 0 <= j < ny -> 0 <= k < nz ->
+  znth 0 (volume D (nx,ny,nz) samples) ((i*ny + j)*nz + k) = density D (nx,ny,nz) samples (i,j,k).
+Proof. exact volume_entry. Qed.
+Print Assumptions C08_volume_entry.
+Theorem C08_voxel_range : forall D n x, 0 < D -> 0 < n -> 0 <= x < D -> 0 <= voxel D n x < n.
+Proof. exact voxel_range. Qed.
+Print Assumptions C08_voxel_range.
+(* binning on open-left edges k/n is the same as the floor (exact arithmetic) *)
+Theorem C08_digitize_is_floor : forall D n x, 0 < D -> 0 < n -> 0 <= x < D -> digitize D n x = voxel D n x.
+Proof. exact digitize_is_floor. Qed.
+Print Assumptions C08_digitize_is_floor.
+
+(* voxel edge length is at least the requested resolution and less than twice it *)
+Theorem C08_edge_bounds : forall L r, 0 < r -> r <= L ->
+  let n := ngrid L r in 1 <= n /\ r * n <= L /\ L < 2 * r * n.
+Proof. exact edge_bounds. Qed.
+Print Assumptions C08_edge_bounds.
+
+(* voxel -> fractional centre -> voxel returns the index: exactly, and in binary64 for every
+   index of every grid size up to 4096 (kernel-evaluated sweep; the bound is in the statement) *)
+Theorem C08_roundtrip_exact : forall n i, 0 < n -> 0 <= i < n -> voxel_of_centre n i = i.
+Proof. exact roundtrip_Q. Qed.
+Print Assumptions C08_roundtrip_exact.
+Theorem C08_roundtrip_float : forall n i, 1 <= n <= 4096 -> 0 <= i < n -> roundtrip_ok n i = true.
+Proof. exact roundtrip_float. Qed.
+Print Assumptions C08_roundtrip_float.
+
+(* shifting a coordinate by k voxel widths rolls its voxel index by k (used by C07) *)
+Theorem C08_volume_roll : forall D n q x k, n * q = D -> 0 < n -> 0 < q -> 0 <= x < D ->
+  voxel D n ((x + k * q) mod D) = (voxel D n x + k) mod n.
+Proof. exact volume_roll. Qed.
+Print Assumptions C08_volume_roll.
